@@ -209,6 +209,11 @@ def shard(args):
             cfg['LZMA_MEMLIMIT'] = r.pick([-1, 1 << 24])
             expect = None
             tag = 'bomb:%s^%d' % (codec, depth)
+        if kind in ('fidelity', 'request', 'layers', 'listed') and 'BOMB_LIMIT' not in cfg and expect is not None and len(body) > 0 and len(payload) < 1000 * len(body) and r.chance(0.4):
+            # the bomb limit only matters for bodies that inflate more than 2048-fold: a small limit (below the size of the payload)
+            # must not cost a benign body a single byte, on either side
+            cfg['BOMB_LIMIT'] = r.pick([1, 100, 4096, 16384])
+            tag += ':bl'
         framing = r.pick(['cl', 'chunked', 'close']) if side == 'res' else r.pick(['cl', 'chunked'])
         fh, fbody = frame(r, body, framing)
         if side == 'res':
